@@ -177,8 +177,18 @@ func compareTraces(r *e3Rig, m *e3Model, real []e3Ev, from int, what string, sig
 		return s
 	}
 	realTail, modelTail := real[imin(from, len(real)):], model[imin(from, len(model)):]
+	// first difference, with a little context
+	n := imin(len(real), len(model))
+	for i := from; i < n; i++ {
+		a, b := real[i], model[i]
+		if a.H != b.H || (a.H >= 0 && a.Kind != b.Kind) || a.Msg != b.Msg {
+			lo := imax(from, i-3)
+			return core.Viol(sigPrefix+"/trace-differs", "%s: step %d of %d/%d: real %s, model %s; context real [%s] model [%s]", what, i-from, len(realTail), len(modelTail), a, b, render(real[lo:imin(len(real), i+3)]), render(model[lo:imin(len(model), i+3)]))
+		}
+	}
 	if len(real) != len(model) {
-		return core.Viol(sigPrefix+"/trace-differs", "%s: real pipeline visited [%s], model [%s]", what, render(realTail), render(modelTail))
+		lo := imax(from, n-3)
+		return core.Viol(sigPrefix+"/trace-differs", "%s: real trace has %d steps, model %d; after the common part: real [%s] model [%s]", what, len(realTail), len(modelTail), render(real[lo:imin(len(real), n+4)]), render(model[lo:imin(len(model), n+4)]))
 	}
 	for i := from; i < len(real); i++ {
 		a, b := real[i], model[i]
